@@ -47,3 +47,13 @@ package nodeenrollment
 //@   requires (curKey(r) == curKey(s) && curId(r) == curId(s)) || (prevOk(r) && prevKey(r) == curKey(s) && prevId(r) == curId(s))
 //@   ensures[C11 roundtrip] encErr == nil ==> decErr == nil && exists mc String :: encodes(mc, msg) && decodedFrom(out, mc)
 //@   modifies fields(out)
+
+// ---------------------------------------------------------------- common.go
+
+//@ pred knownProto(p) := hasPrefix(p, FetchNodeCredsNextProtoV1Prefix) || hasPrefix(p, AuthenticateNodeNextProtoV1Prefix) || hasPrefix(p, CertificatePreferenceV1Prefix)
+
+//@ func nodeenrollment.ContainsKnownAlpnProto
+//@   nopanic[*]
+//@   ensures[* found] ret ==> exists i int :: 0 <= i && i < len(protos) && knownProto(protos[i])
+//@   ensures[* none] !ret ==> forall i int :: 0 <= i && i < len(protos) ==> !knownProto(protos[i])
+//@   loop 0 invariant[seen] 0 <= rangeindex + 1 && forall i int :: 0 <= i && i < rangeindex + 1 ==> !knownProto(protos[i])
